@@ -41,7 +41,7 @@ def errKindName : ErrKind → String
   | .missingResponseVersion => "MissingResponseVersion" | .responseMissingStatus => "ResponseMissingStatus"
   | .responseInvalidStatus => "ResponseInvalidStatus" | .incompleteResponse => "IncompleteResponse"
   | .noLocationHeader => "NoLocationHeader" | .badLocationHeader => "BadLocationHeader" | .headersWith100 => "HeadersWith100"
-  | .bodyIsChunked => "BodyIsChunked"
+  | .bodyIsChunked => "BodyIsChunked" | .requestMissingMethod => "RequestMissingMethod" | .requestInvalidMethod => "RequestInvalidMethod"
 
 def stName : FState → String
   | .prepare => "prepare" | .sendRequest => "sendRequest" | .await100 => "await100" | .sendBody => "sendBody"
